@@ -150,6 +150,11 @@ def c13(tier, seed, wd, replay=None):
     for name, consts in cfgs:
         for caching in (False, True):
             run_config(run, "C13", name, consts, wd, caching, select=sel, probe_filter=pf)
+    # graphs holding an edge that LOST AN END (Link.unlink_from): there the queries raise, and "however the call then ends,
+    # the graph is as before" is all that is claimed - and is claimed
+    lname, lconsts = qcfg("graphs-2x2-D-lostends", Kinds={"D"}, OnlyOps={"new", "lunl"}, Fams={"link"}, AllowNone=False)
+    run_config(run, "C13", lname, lconsts, wd, True, select=sel if tier == "quick" else 2,
+               probe_filter=lambda ks: any(len(e) == 1 for e in json.loads(ks)["ends"]) and P.h(ks) % (2 if tier == "quick" else 1) == 0)
     run.exhaustive = False
     run.assumptions = ASSUME
     mandatory = [lambda c: c.startswith("ro:make_pyvis_net,cb=rvfunc"), lambda c: c.startswith("ro:make_pyvis_net,cb=refunc"),
